@@ -78,7 +78,7 @@ func colAlts() []colAlt {
 	}
 }
 
-const tblUnion = "type Shape interface {\n\tisShape()\n}\n\ntype Circle struct {\n\tR int\n}\n\ntype Rect struct {\n\tW, H float64\n\tNote string `json:\"note\"`\n}\n\nfunc (Circle) isShape() {}\nfunc (Rect) isShape()   {}\n"
+const tblUnion = "type Shape interface {\n\tisShape()\n}\n\ntype Circle struct {\n\tR int\n}\n\ntype Rect struct {\n\tW, H float64\n\tNote string `json:\"note\"`\n}\n\ntype Path []int\n\nfunc (Circle) isShape() {}\nfunc (Rect) isShape()   {}\nfunc (Path) isShape()   {}\n"
 
 var userDirectives = []string{
 	"",
@@ -111,7 +111,13 @@ var linkDirectives = []string{
 }
 
 // Tables is the F-tables family.
-func Tables(c explore.Chooser) *prog.Program {
+func Tables(c explore.Chooser) *prog.Program { return TablesWith(c, "") }
+
+// TablesJSON is F-tables with a jsonb column (a struct holding a union, an enum and a map) as
+// the default slot column, so that value deviations are not spent on reaching a jsonb column.
+func TablesJSON(c explore.Chooser) *prog.Program { return TablesWith(c, "Drawing") }
+
+func TablesWith(c explore.Chooser, defaultCol string) *prog.Program {
 	s := &S{C: c}
 	rootPath := prog.Base() + "/models"
 	extPath := rootPath + "/ext"
@@ -119,6 +125,13 @@ func Tables(c explore.Chooser) *prog.Program {
 	idName := s.Pick("user.id.name", "Id", "ID", "id", "absent")
 	idType := s.Pick("user.id.type", "IdUser", "int64", "UserId")
 	alts := colAlts()
+	if defaultCol != "" {
+		for i, a := range alts {
+			if a.label == defaultCol {
+				alts[0], alts[i] = alts[i], alts[0]
+			}
+		}
+	}
 	ci := s.C.Choose("col.type", len(alts))
 	col := alts[ci]
 	if ci != 0 {
